@@ -74,9 +74,10 @@ class Eng:
         hfac = None
         if any(i.get('created') for i in self.inserts):
             hfac = (factory.YaqlFactory if kind == 'default' else legacy.YaqlFactory)(allow_delegates=delegates)
+        self.early = []          # (engine created before an insert, the operator records at that time)
         for ins in self.inserts:
             if hfac is not None and ins.get('created'):
-                hfac.create()
+                self.early.append((hfac.create(), [tuple(r) for r in hfac.operators]))
             try:
                 fac.insert_operator(ins['ex'], ins['bin'], ins['sym'], ins['ty'], ins['cg'], ins['alias'])
                 self.steps.append([list(r) for r in fac.operators])
@@ -915,6 +916,53 @@ def insert_contract(before, ins, after):
     return None
 
 
+EARLY_HIST = {}
+
+
+def check_early(eng, rng, res, hist):
+    """an engine keeps the operator table it was created with: engines created from the factory BEFORE later
+    insert_operator calls must still parse like a fresh engine built from the records of that moment"""
+    for k, (early, records) in enumerate(eng.early):
+        twin_fac = (factory.YaqlFactory if eng.kind == 'default' else legacy.YaqlFactory)(allow_delegates=eng.delegates)
+        twin_fac.operators = [tuple(r) for r in records]
+        try:
+            twin_engine = twin_fac.create()
+        except Exception:       # noqa - the table of that moment was not a valid one: nothing to compare
+            continue
+        twin = Eng.__new__(Eng)
+        twin.engine = twin_engine
+        syms = [r[0] for r in records if len(r) > 1 and r[1] in BIN_TYPES and r[0] not in ('[]', '{}')]
+        pres = [r[0] for r in records if len(r) > 1 and r[1] == OT.PREFIX_UNARY]
+        for _ in range(25):
+            n = rng.randrange(1, 5)
+            toks = []
+            for i in range(n):
+                if pres and rng.random() < 0.3:
+                    toks.append(rng.choice(pres))
+                toks.append(rng.choice(['$a', '1', '$b', '2']))
+                if i < n - 1:
+                    toks.append(rng.choice(syms))
+            text = ' '.join(toks)
+            a, b = real_parse_engine(early, text), real_parse_engine(twin_engine, text)
+            hist['early_engine_texts'] = hist.get('early_engine_texts', 0) + 1
+            res.case('early:%s:%s' % (eng.label(), text), True)
+            if a != b:
+                res.fail('oracle', 'engine-follows-later-table',
+                         '[%s] an engine created before insert #%d parses %r as %s; the table it was created with dictates %s' % (
+                             eng.label(), k, text, json.dumps(a)[:160], json.dumps(b)[:160]),
+                         dict(kind=eng.kind, delegates=eng.delegates, inserts=eng.inserts, text=None, early=k, probe=text))
+                return
+
+
+def real_parse_engine(engine, text):
+    try:
+        return dict(ok=tree_json(engine(text).expression))
+    except exceptions.YaqlParsingException as e:
+        return dict(err=type(e).__name__)
+    except Exception as e:      # noqa
+        return dict(foreign=type(e).__name__)
+
+
 def check_inserts(eng, res):
     """oracle on the real insert_operator alone"""
     cur = eng.base
@@ -931,6 +979,8 @@ def check_inserts(eng, res):
 def check_table(eng, drv, res):
     """insert_operator / _build_operator_table / _generate_operator_funcs: model vs live objects"""
     check_inserts(eng, res)
+    if getattr(eng, 'early', None):
+        check_early(eng, common.make_rng(0, 'C02early/' + eng.label()), res, EARLY_HIST)
     if drv is None:
         return
     req = dict(p='C02', op='table')
@@ -1251,6 +1301,7 @@ def run(env, res):
             shrunk.append(f)
     # oracle failures first
     res.failures = sorted(shrunk, key=lambda f: f.kind != 'oracle') + res.failures[6:]
+    hist.update(EARLY_HIST)
     res.extra['histogram'] = hist
     res.extra['wall_correspondence_s'] = round(time.time() - t0, 1)
     return res
